@@ -223,7 +223,9 @@ impl Prop for Multi {
     }
     fn strategy(&self, tier: Tier) -> BoxedStrategy<MultiAny> {
         let composite = crate::checks::statics::composite_strategy(tier).prop_map(MultiAny::Composite);
-        prop_oneof![150 => self.small_strategy(tier).prop_map(MultiAny::Small), 1 => composite].boxed()
+        let medium = (crate::checks::statics::medium_strategy(), 0u8..3, vec(any::<u16>(), 1..=3), (any::<u64>(), 0u8..3))
+            .prop_map(|(gc, mode, picks, choice)| MultiAny::Small(MultiCase { gc, mode, picks, choice }));
+        prop_oneof![150 => self.small_strategy(tier).prop_map(MultiAny::Small), 1 => composite, 2 => medium].boxed()
     }
     fn n_cases(&self, tier: Tier) -> u32 {
         tier.pick(60_000, 1_500_000)
@@ -290,7 +292,21 @@ impl Multi {
             return Ok(());
         }
         let g = G::new(case.gc.g.n, &case.gc.g.att_usize());
-        let fams = Fams::new(&g);
+        let fams = if g.n > 13 {
+            // irregular graphs of 14-24 arguments: the backtracking reference
+            match Fams::new_medium(&g) {
+                Some(f) => {
+                    rec.class("medium-size-graph-judged-by-backtracking-reference");
+                    f
+                }
+                None => {
+                    rec.class("medium-size-graph-skipped-too-many-extensions");
+                    return Ok(());
+                }
+            }
+        } else {
+            Fams::new(&g)
+        };
         let list = resolve_picks(&g, &case.gc.g.att, case.mode, &case.picks);
         let qm: u32 = list.iter().fold(0, |m, a| m | (1 << a));
         let comps = g.components();
